@@ -324,6 +324,13 @@ func (fc *FCtx) evalBinary(e *ast.BinaryExpr, st *State) Val {
 			oos("string concatenation")
 		}
 		return fc.arith(e.Op, x, y, fc.info().TypeOf(e), st, e.Pos())
+	case token.OR, token.XOR, token.AND_NOT:
+		fn := map[token.Token]string{token.OR: "bit_or", token.XOR: "bit_xor", token.AND_NOT: "bit_andnot"}[e.Op]
+		fc.U.Fun(fn, []*Sort{SInt, SInt}, SInt)
+		v := Val{T: app(fn, x.T, y.T), S: SInt, GoT: fc.info().TypeOf(e)}
+		st.assume(fc.U.WF(v))
+		fc.note("bitwise " + e.Op.String() + " modelled as an uninterpreted function of its operands")
+		return v
 	case token.AND:
 		// x & (2^k-1) on non-negative values
 		if tv, ok := fc.info().Types[e.Y]; ok && tv.Value != nil {
@@ -333,7 +340,11 @@ func (fc *FCtx) evalBinary(e *ast.BinaryExpr, st *State) Val {
 				}
 			}
 		}
-		oos("bitwise and")
+		fc.U.Fun("bit_and", []*Sort{SInt, SInt}, SInt)
+		v := Val{T: app("bit_and", x.T, y.T), S: SInt, GoT: fc.info().TypeOf(e)}
+		st.assume(fc.U.WF(v))
+		fc.note("bitwise & modelled as an uninterpreted function of its operands")
+		return v
 	}
 	oos("binary operator %s", e.Op)
 	return Val{}
@@ -462,7 +473,21 @@ func (fc *FCtx) arith(op token.Token, x, y Val, t types.Type, st *State, pos tok
 func (fc *FCtx) shift(op token.Token, x, y Val, t types.Type, ye ast.Expr, st *State, pos token.Pos) Val {
 	tv, ok := fc.info().Types[ye]
 	if !ok || tv.Value == nil {
-		oos("shift by non-constant")
+		// variable shift amount: x << k == x * 2^k, x >> k == x div 2^k, for 0 <= k <= 64
+		// (a shift count >= the operand width yields 0 for unsigned / non-negative operands)
+		fc.panicCheck(st, "shift-amount", fmt.Sprintf("(<= 0 %s)", y.T), pos)
+		mn := machineIntName(t)
+		if op == token.SHR {
+			if !isUnsigned(t) {
+				return Val{T: fmt.Sprintf("(ite (>= %s 64) (ite (< %s 0) (- 1) 0) (div %s (pow2 %s)))", y.T, x.T, x.T, y.T), S: SInt, GoT: t}
+			}
+			return Val{T: fmt.Sprintf("(ite (>= %s 64) 0 (div %s (pow2 %s)))", y.T, x.T, y.T), S: SInt, GoT: t}
+		}
+		raw := fmt.Sprintf("(ite (>= %s 64) 0 (* %s (pow2 %s)))", y.T, x.T, y.T)
+		if mn == "" {
+			oos("variable left shift of an unbounded integer")
+		}
+		return Val{T: app("wrap_"+mn, raw), S: SInt, GoT: t}
 	}
 	k, ok := constant.Int64Val(constant.ToInt(tv.Value))
 	if !ok || k < 0 || k > 255 {
